@@ -352,10 +352,18 @@ func (s *Server) Snapshot() (raft.FSMSnapshot, error) {
 	var (
 		streams      = s.metadata.GetStreams()
 		groups       = s.metadata.GetConsumerGroups()
-		protoStreams = make([]*proto.Stream, len(streams))
+		protoStreams = make([]*proto.Stream, 0, len(streams))
 		protoGroups  = make([]*proto.ConsumerGroup, len(groups))
 	)
-	for i, stream := range streams {
+	for _, stream := range streams {
+		// Skip tombstoned streams. These were deleted by an entry replayed
+		// during recovery and are only kept around until recovery finishes,
+		// so they are not part of the state being snapshotted. The tombstone
+		// is not persisted, so including them would bring the deleted stream
+		// back when the snapshot is restored.
+		if stream.IsTombstoned() {
+			continue
+		}
 		var (
 			partitions  = stream.GetPartitions()
 			protoStream = &proto.Stream{
@@ -380,7 +388,7 @@ func (s *Server) Snapshot() (raft.FSMSnapshot, error) {
 			}
 			protoStream.Partitions[j] = protoPartition
 		}
-		protoStreams[i] = protoStream
+		protoStreams = append(protoStreams, protoStream)
 	}
 	for i, group := range groups {
 		coordinator, epoch := group.GetCoordinator()
